@@ -347,14 +347,21 @@ func c06VerifierKeys(p *an.Prog, r *an.Report) {
 	}()
 	n := 0
 	for _, o := range sub.Obs {
-		if o.Rule != "C05.V2" {
-			continue
+		switch o.Rule {
+		case "C05.V2":
+			n++
+			c := *o
+			c.Rule = "C06.G4"
+			c.Key = strings.Replace(o.Key, "C05.V2/", "C06.G4/", 1)
+			r.Add(&c)
+		case "C05.V4":
+			// G5: the verifier rebuilds its message from every field of the structure (what the
+			// constructor signed is what the verifier checks)
+			c := *o
+			c.Rule = "C06.G5"
+			c.Key = strings.Replace(o.Key, "C05.V4/", "C06.G5/", 1)
+			r.Add(&c)
 		}
-		n++
-		c := *o
-		c.Rule = "C06.G4"
-		c.Key = strings.Replace(o.Key, "C05.V2/", "C06.G4/", 1)
-		r.Add(&c)
 	}
 	if n < 5 {
 		r.Fail("C06.G4: only %d verifier key-origin obligations found", n)
